@@ -494,6 +494,8 @@ func (x *codecExplorer) explore() {
 				x.maxDepth = 3
 			}
 		}
+		// remaining-length family (codec_tail.go)
+		x.tailFamily(m)
 		// depth 1: full token alphabet
 		full1 := optTokens(m, true)
 		min1 := optTokens(m, false)
